@@ -18,6 +18,36 @@ use std::sync::Mutex;
 /// so that a run of transient faults is always retried through)
 const GIVE_UP: usize = 5;
 
+/// Every heap allocation is pre-filled with 0xEE: the library's IO buffers come from an allocation it does not
+/// initialise (`AlignedBytes::new`), and padding bytes of sent messages are whatever was there. Without this,
+/// an execution that mis-frames a stream (a violation) would interpret heap garbage as lengths, and re-executing
+/// the same choice prefix would diverge — the explorer must own that source of nondeterminism too.
+struct FillAlloc;
+unsafe impl std::alloc::GlobalAlloc for FillAlloc {
+    unsafe fn alloc(&self, l: std::alloc::Layout) -> *mut u8 {
+        let p = std::alloc::System.alloc(l);
+        if !p.is_null() {
+            std::ptr::write_bytes(p, 0xEE, l.size());
+        }
+        p
+    }
+    unsafe fn dealloc(&self, p: *mut u8, l: std::alloc::Layout) {
+        std::alloc::System.dealloc(p, l)
+    }
+    unsafe fn alloc_zeroed(&self, l: std::alloc::Layout) -> *mut u8 {
+        std::alloc::System.alloc_zeroed(l)
+    }
+    unsafe fn realloc(&self, p: *mut u8, l: std::alloc::Layout, n: usize) -> *mut u8 {
+        let q = std::alloc::System.realloc(p, l, n);
+        if !q.is_null() && n > l.size() {
+            std::ptr::write_bytes(q.add(l.size()), 0xEE, n - l.size());
+        }
+        q
+    }
+}
+#[global_allocator]
+static ALLOC: FillAlloc = FillAlloc;
+
 fn family(id: &str) -> &str {
     if id == "()" {
         return "unit";
@@ -126,6 +156,21 @@ fn msg_size(s: &dyn IoShape, v: &Value) -> usize {
         let e = encode(&s.desc(), v, 1 << 20, 0).map(|i| i.extent).unwrap_or(0);
         m.borrow_mut().insert(key, e);
         e
+    })
+}
+
+/// run `f` with the sending drivers initialising every guard with `seed` and then assigning the real message
+/// through the guard (DerefMut) before send
+fn with_edit<R>(seed: &Value, f: impl FnOnce() -> R) -> R {
+    harness::EDIT_AFTER_INIT.with(|e| *e.borrow_mut() = Some(seed.clone()));
+    let r = f();
+    harness::EDIT_AFTER_INIT.with(|e| *e.borrow_mut() = None);
+    r
+}
+fn edit_json() -> serde_json::Value {
+    harness::EDIT_AFTER_INIT.with(|e| match &*e.borrow() {
+        Some(v) => json!(format!("{:?}", v)),
+        None => serde_json::Value::Null,
     })
 }
 
@@ -279,7 +324,7 @@ fn run_sender_blocking(s: &dyn IoShape, cap: CapSpec, seq: &[Value], kind: Kind,
 fn judge_sender(cx: &mut Ctx, mode: &str, cap: CapSpec, seq: &[Value], run: &SendRun, trace: &[(u16, u16)], faulty: bool) {
     let d = cx.d.clone();
     let blen = buf_len(cap, &d);
-    let replay_fn = || json!({"engine": "io_explore", "policy": CHUNK_POLICY.with(|c| c.get()), "mode": mode, "side": "sender", "shape": cx.s.id(), "cap": format!("{:?}", cap), "seq": seq.iter().map(|v| format!("{:?}", v)).collect::<Vec<_>>(), "choices": choices_json(trace)});
+    let replay_fn = || json!({"engine": "io_explore", "policy": CHUNK_POLICY.with(|c| c.get()), "edit": edit_json(), "mode": mode, "side": "sender", "shape": cx.s.id(), "cap": format!("{:?}", cap), "seq": seq.iter().map(|v| format!("{:?}", v)).collect::<Vec<_>>(), "choices": choices_json(trace)});
     if let Some(p) = &run.panic {
         if p.contains(HORIZON_MSG) {
             cx.violate(format!("{}/sender/hang", mode), format!("a send did not return within the call horizon; faults {:?}; seq {:?} cap {:?}", run.injected, seq, cap), replay_fn());
@@ -453,10 +498,38 @@ fn judge_receiver_exact(cx: &mut Ctx, mode: &str, cap: CapSpec, seq: &[Value], s
 // mode: blocking (C07)
 // ============================================================================================
 
+/// `io(pipe, max_msg_len)` documents `max_msg_len.max(M::MIN_SIZE)`: a limit BELOW the minimum size is legal and
+/// must carry every message of minimal size (two of them, so that the second starts inside the buffer)
+fn tiny_limit_cases(d: &Desc, msgs: &Msgs) -> Vec<(CapSpec, Vec<Value>)> {
+    let min = d.min_size();
+    if min == 0 {
+        return vec![];
+    }
+    let smallest: Vec<Value> = msgs.vals.iter().filter(|v| encode(d, v, 4 * min + 64, 0).map(|i| i.extent == min).unwrap_or(false)).take(2).cloned().collect();
+    if smallest.is_empty() {
+        return vec![];
+    }
+    let seq = vec![smallest[0].clone(), smallest[smallest.len() - 1].clone(), smallest[0].clone()];
+    let mut out = vec![(CapSpec::Io(0), seq.clone())];
+    if min > 1 {
+        out.push((CapSpec::Io(min - 1), seq));
+    }
+    out
+}
+
 fn mode_blocking(cx: &mut Ctx) {
     let d = cx.d.clone();
     let msgs = pick_messages(&d, cx.thorough);
     let seqs = sequences(&msgs, if cx.thorough { 3 } else { 2 });
+    for (cap, seq) in tiny_limit_cases(&d, &msgs) {
+        let blen = buf_len(cap, &d);
+        let (stream, _m, sizes) = stream_of(&d, &seq, blen);
+        let s = cx.s;
+        let st = explore(None, 200_000, || run_sender_blocking(s, cap, &seq, Kind::Iter, &FaultCfg::off(), msgs.s), |t, r| judge_sender(cx, "blocking", cap, &seq, &r, t, false));
+        account(cx, &st, None, stream.len(), "tiny_limit_sender");
+        let st = explore(None, 200_000, || run_receiver_blocking(s, cap, &stream, &FaultCfg::off(), true), |t, r| judge_receiver_exact(cx, "blocking", cap, &seq, &stream, &sizes, &r, t));
+        account(cx, &st, None, stream.len(), "tiny_limit_receiver");
+    }
     let full_len = if cx.thorough { 16 } else { 12 };
     let dev = if cx.thorough { 3 } else { 2 };
     let max_execs = if cx.thorough { 2_000_000 } else { 60_000 };
@@ -477,6 +550,21 @@ fn mode_blocking(cx: &mut Ctx) {
                 }
             }
             account(cx, &st, bound, stream.len(), "sender");
+            // ---- the sender once more, every guard initialised with another value (the smallest, then the largest
+            // message) and the real message assigned THROUGH the guard before send: what is written is the final content
+            if !seq.is_empty() {
+                for seed in [msgs.vals[0].clone(), msgs.vals[msgs.vals.len() - 1].clone()] {
+                    let mut n = 0u64;
+                    let st = with_edit(&seed, || {
+                        explore(Some(1), max_execs, || run_sender_blocking(s, cap, seq, Kind::Iter, &FaultCfg::off(), msgs.s), |t, r| {
+                            judge_sender(cx, "blocking", cap, seq, &r, t, false);
+                            n += 1;
+                        })
+                    });
+                    account(cx, &st, Some(1), stream.len(), "sender_edit_after_init");
+                    cx.acc.count("executions_edit_after_init", n);
+                }
+            }
             // ---- receiver: every read script over the bytes the real sender produced
             let real = default_sink.filter(|s| s.len() == stream.len()).unwrap_or(stream.clone());
             let mut rres: Vec<(Vec<(u16, u16)>, RecvRun)> = vec![];
@@ -705,7 +793,7 @@ fn judge_async(cx: &mut Ctx, cap: CapSpec, pipe_cap: usize, seq: &[Value], run: 
     let d = cx.d.clone();
     let blen = buf_len(cap, &d);
     let (stream, mask, sizes) = stream_of(&d, seq, blen);
-    let replay_fn = || json!({"engine": "io_explore", "policy": CHUNK_POLICY.with(|c| c.get()), "retain": retain_on(), "mode": "async", "shape": cx.s.id(), "cap": format!("{:?}", cap), "pipe_cap": pipe_cap, "seq": seq.iter().map(|v| format!("{:?}", v)).collect::<Vec<_>>(), "choices": choices_json(trace)});
+    let replay_fn = || json!({"engine": "io_explore", "policy": CHUNK_POLICY.with(|c| c.get()), "retain": retain_on(), "edit": edit_json(), "mode": "async", "shape": cx.s.id(), "cap": format!("{:?}", cap), "pipe_cap": pipe_cap, "seq": seq.iter().map(|v| format!("{:?}", v)).collect::<Vec<_>>(), "choices": choices_json(trace)});
     if let Some(p) = &run.panic {
         cx.violate(format!("async/panic/{}", panic_site(p)), format!("panic: {} (seq {:?} cap {:?} pipe {})", p, seq, cap, pipe_cap), replay_fn());
         return;
@@ -766,6 +854,13 @@ fn mode_async(cx: &mut Ctx) {
     let d = cx.d.clone();
     let msgs = pick_messages(&d, cx.thorough);
     let seqs = sequences(&msgs, 2);
+    for (cap, seq) in tiny_limit_cases(&d, &msgs) {
+        for pc in [1usize, 3, msgs.s.max(1)] {
+            let s = cx.s;
+            let st = explore(Some(2), 40_000, || run_async(s, cap, &seq, pc, 1, &FaultCfg::off(), &FaultCfg::off()), |t, r| judge_async(cx, cap, pc, &seq, &r, t));
+            account(cx, &st, Some(2), 0, "tiny_limit_async");
+        }
+    }
     let dev = if cx.thorough { 3 } else { 2 };
     let max_execs = if cx.thorough { 1_500_000 } else { 40_000 };
     let s_ = msgs.s.max(1);
@@ -803,6 +898,18 @@ fn mode_async(cx: &mut Ctx) {
                         }
                     });
                     account(cx, &st, Some(dev), stream.len(), "async_retain");
+                    // and with every guard initialised with another value, the message assigned through the guard
+                    for seed in [msgs.vals[0].clone(), msgs.vals[msgs.vals.len() - 1].clone()] {
+                        let mut n = 0u64;
+                        let st = with_edit(&seed, || {
+                            explore(Some(1), max_execs, || run_async(s, cap, seq, pc, 0, &FaultCfg::off(), &FaultCfg::off()), |t, r| {
+                                judge_async(cx, cap, pc, seq, &r, t);
+                                n += 1;
+                            })
+                        });
+                        account(cx, &st, Some(1), stream.len(), "async_edit_after_init");
+                        cx.acc.count("executions_edit_after_init", n);
+                    }
                 }
                 cx.acc.count("executions_with_pending", pend);
                 cx.acc.distinct.insert(format!("{}:{:?}:{}:{}", cx.s.id(), cap, pc, seq.len()));
@@ -919,6 +1026,20 @@ fn mode_fault(cx: &mut Ctx) {
                 cx.acc.count("executions_with_retain", n);
             }
             // ---- async pair under faults (writer side and reader side separately)
+            // small pipes: a write is accepted in part, the next one is Pending, the fault arrives on a later poll
+            for pc_small in [1usize, 3] {
+                if pc_small >= s_ {
+                    continue;
+                }
+                let wf = fc.clone();
+                let mut n = 0u64;
+                let st = explore(Some(dev), max_execs, || run_async(s, cap, seq, pc_small, 1, &wf, &FaultCfg::off()), |t, r| {
+                    judge_async_faulty(cx, cap, seq, &stream, &sizes, &r, t, "async_writer");
+                    n += 1;
+                });
+                account(cx, &st, Some(dev), stream.len(), "async_writer_small_pipe");
+                cx.acc.count("executions_small_pipe_faults", n);
+            }
             for (wf, rf, side) in [(fc.clone(), FaultCfg::off(), "async_writer"), (FaultCfg::off(), fc.clone(), "async_reader")] {
                 let mut ares: Vec<(Vec<(u16, u16)>, AsyncRun)> = vec![];
                 let st = explore(Some(dev), max_execs, || run_async(s, cap, seq, s_, 0, &wf, &rf), |t, r| ares.push((t.to_vec(), r)));
@@ -1596,6 +1717,10 @@ fn replay_case(shapes: &[&'static dyn IoShape], case: &serde_json::Value) -> i32
     pool.extend(huge_messages(&d, true).into_iter().map(|(v, _)| v));
     CHUNK_POLICY.with(|c| c.set(case["policy"].as_u64().unwrap_or(0) as usize));
     RETAIN.with(|r| r.set(case["retain"].as_bool().unwrap_or(false)));
+    if let Some(e) = case["edit"].as_str() {
+        let seed = pool.iter().find(|v| format!("{:?}", v) == e).cloned();
+        harness::EDIT_AFTER_INIT.with(|x| *x.borrow_mut() = seed);
+    }
     let seq: Vec<Value> = case["seq"].as_array().map(|a| a.iter().filter_map(|x| pool.iter().find(|v| format!("{:?}", v) == x.as_str().unwrap_or("")).cloned()).collect()).unwrap_or_default();
     let thorough = true;
     let mut msgs = pick_messages(&d, thorough);
